@@ -27,6 +27,24 @@ def path_facts(g, nid):
         fs |= facts(t, lab == "true")
     # `assert isinstance(field, SchemaField)` after the group arm of a guard-clause validator is the same knowledge as an `elif`
     fs |= assert_facts(g, nid)
+    # a local that carries a finding out of a search loop (`found = None; for ..: if <cond>: found = x; break` ... `if found is not None:`):
+    # where it is known not to be None, the facts of the place(s) where it was given a value hold for that value
+    for atom, tv in list(fs):
+        m = re.fullmatch(r"(\w+) is not None", atom) if tv else re.fullmatch(r"(\w+) is None", atom) if not tv else None
+        if not m:
+            continue
+        v = m.group(1)
+        defs = [n for n in g.nodes if n.kind == "stmt" and isinstance(n.ast, ast.Assign) and len(n.ast.targets) == 1 and unparse(n.ast.targets[0]) == v]
+        valued = [n for n in defs if not (isinstance(n.ast.value, ast.Constant) and n.ast.value.value is None)]
+        if not valued or len(valued) == len(defs):
+            continue
+        carried = None
+        for n in valued:
+            f2 = set()
+            for t, lab in g.guards(n.id, exc=False):
+                f2 |= facts(t, lab == "true")
+            carried = f2 if carried is None else (carried & f2)
+        fs |= {(a, t) for a, t in (carried or set())}
     return fs
 
 
@@ -76,9 +94,19 @@ def group_roles(gfn):
     r["ORD"] = ordv[0] if ordv else (ordg[0] if ordg else "?")
     r["ORD_VIA_GET"] = bool(ordg) and not ordv
     prev = [n for n in _assigned(gfn, lambda v: unparse(v) == r["ORD"])]
-    r["PREV"] = prev[0] if prev else "?"
+    # the previous-index local is the one the order test compares with the current index (`prev > idx`)
+    cmp_txt = " ".join(unparse(n.test) for n in walk_no_nested(gfn) if isinstance(n, ast.If))
+    prev_cmp = [p_ for p_ in prev if re.search(rf"\b{re.escape(p_)} > {re.escape(r['ORD'])}\b|\b{re.escape(r['ORD'])} < {re.escape(p_)}\b", cmp_txt)]
+    r["PREV"] = (prev_cmp or prev or ["?"])[0]
     first = [n for n in _assigned(gfn, lambda v: isinstance(v, ast.Constant) and v.value is True) if n in _assigned(gfn, lambda v: isinstance(v, ast.Constant) and v.value is False)]
     r["FIRST"] = first[0] if first else "?"
+    r["FIRST_IS_INDEX"] = False
+    if not first:
+        # the same bookkeeping as 'index of the item's first member': assigned the current index only while it is still None, tested != 0
+        idx_first = [p_ for p_ in prev if p_ != r["PREV"] and re.search(rf"\b{re.escape(p_)} != 0\b|\b{re.escape(p_)} == 0\b", cmp_txt)]
+        if idx_first:
+            r["FIRST"] = idx_first[0]
+            r["FIRST_IS_INDEX"] = True
     return r
 
 
@@ -170,7 +198,8 @@ def run(ctx):
         "recursion into groups": (any(has(fs, r"\w+\.is_group\(\w+\)", False) is False for n, c, fs in cv_grp) and bool(cv_grp),
                                   any(True for n, c, fs in cg_grp if unparse(c.func.value) != "self") and bool(cg_grp)),
         "member order": (None, any_raise(rg, lambda fs: has(fs, rf"{PREV} > {ORD}") or has(fs, rf"{ORD} < {PREV}"))),
-        "first member present": (None, any_raise(rg, lambda fs: has(fs, re.escape(FIRST), False))),
+        "first member present": (None, any_raise(rg, (lambda fs: has(fs, rf"{re.escape(FIRST)} != 0") or has(fs, rf"{re.escape(FIRST)} == 0", False))
+                                                  if roles_g.get("FIRST_IS_INDEX") else (lambda fs: has(fs, re.escape(FIRST), False)))),
         "unknown message type": (any_raise(rv, lambda fs: has(fs, r"msg\.msg_type not in self\._messages_types")), None),
     }
     for cell, (m_ok, g_ok) in matrix.items():
@@ -218,9 +247,13 @@ def run(ctx):
     ctx.instance(R2, "validate_group[previous index updated for every member]", ok,
                  "the previous-index local is not updated to the current member's index for every member kind: the order test compares with a stale index", loc(gfn))
     ok = bool(first) and all(has(path_facts(gg, n.id), rf"{ORD} == 0") for n in first)
+    if roles_g.get("FIRST_IS_INDEX"):
+        # index form: it takes the current member's index only while it has none yet (so it is the index of the item's first member)
+        firsts_ = [n for n in gg.nodes if n.kind == "stmt" and isinstance(n.ast, ast.Assign) and unparse(n.ast.targets[0]) == FIRST and unparse(n.ast.value) == ORD]
+        ok = bool(firsts_) and all(has(path_facts(gg, n.id), rf"{re.escape(FIRST)} is None") for n in firsts_)
     ctx.instance(R2, "validate_group[first member flag only for index 0]", ok, "the first-member flag is set for a member that is not the first of the group", loc(gfn))
     resets = [n for n in gg.nodes if n.kind == "stmt" and isinstance(n.ast, ast.Assign) and unparse(n.ast.targets[0]) in (PREV, FIRST)
-              and unparse(n.ast.value) in ("-1", "False")]
+              and unparse(n.ast.value) in ("-1", "False", "None")]
     loops = [n for n in walk_no_nested(gfn) if isinstance(n, ast.For)]
     inner_ok = len(resets) >= 2 and all(any(r.ast in lp.body for lp in loops) for r in resets)
     ctx.instance(R2, "validate_group[order state reset per item]", inner_ok, "the previous-index / first-member locals are not reset for every group item", loc(gfn))
